@@ -194,7 +194,7 @@ C("C19", "TestC19", P(300, timeout=900), P(2500, 16, 2400), race=True,
   level_note="Weakest decision of the set: goroutine schedules are whatever the runtime produced; relies on the race detector's happens-before analysis.",
   assumptions=["the Go race detector (TSan) observes every conflicting access pair that is executed", DOMAIN])
 
-C("C18", "TestC18", P(20000, timeout=900), P(150000, 16, 3000), fuzz={"target": "FuzzReader", "pkg": "checks", "seconds": 300},
+C("C18", "TestC18", P(20000, timeout=900), P(100000, 16, 3000), fuzz={"target": "FuzzReader", "pkg": "checks", "seconds": 300},
   rule="rapid-generated small valid tables of every layout, damaged by 1..4 edits: bit flips, byte sets (hostile constants), truncations, splices from a second table, byte insertions, and overwrites of structural fields located with specdec "
        "(version, block size, hash id, block type/length, first records, restart counts/offsets, footer offsets) with 1/2/3/8-byte hostile words; the footer copy and CRC are repaired in 5/6 of the cases so that the block decoders are reached; "
        "target: NewReader, full scans, SeekRef/SeekLog/RefsFor for original and foreign keys, the same through one- and two-table NewMerged; "
